@@ -213,7 +213,14 @@ func crashOne(b *model.Behaviour, pal *palette.Palette, palName string, palSeed 
 				if retryable(b, o.Step) {
 					after, err := retryOp(img, b, o.Step, pal, fast, flush)
 					if err != nil {
-						viols = append(viols, mk(o.Name+"/retry-fails", fmt.Sprintf("after a stop at write %d of %d (recovered to %s) repeating %s fails: %v", cut, n, rec, o.Name, err)))
+						class := "retry-fails"
+						// the listed rollback finding: the image is a strictly partial range delete (Load() may repair it
+						// as residue when the remaining later versions only reference erased roots; a rollback repeated
+						// on the image itself still finds a wrong version range)
+						if b.Steps[o.Step].Op == "lvfo" && b.Phys != nil && betweenDisks(img, b.Phys[o.Step-1], b.Phys[o.Step]) && !betweenDisks(img, b.Phys[o.Step], b.Phys[o.Step]) {
+							class = "partial-range-delete"
+						}
+						viols = append(viols, mk(o.Name+"/"+class, fmt.Sprintf("after a stop at write %d of %d (recovered to %s) repeating %s fails: %v", cut, n, rec, o.Name, err)))
 						continue
 					}
 					ev.Retry = fault.Durable(after, b, o.Step, pal, fast, nil)
@@ -285,7 +292,7 @@ func RunC05(id, tier string, seed int64) int {
 		return fail(2, "INCONCLUSIVE: "+err.Error())
 	}
 	sim := SimSpec{Module: "MCIavlStore", Spec: "SSpecSim", K: 6, V: 2, IVs: "{0, 5}", D: 16, Workers: 6, Num: tierNum(tier, 10, 300),
-		Classes: []string{"set", "set", "set", "set", "rm", "rmhit", "save", "save", "save", "save", "reopen", "load", "lvfo", "lvfo", "delto", "delto", "delto", "savecs"}, Invs: []string{"InvContents"}}
+		Classes: []string{"set", "set", "set", "set", "rm", "rmhit", "save", "save", "save", "save", "reopen", "load", "lvfo", "lvfo", "delto", "deltook", "deltook", "savecs"}, Invs: []string{"InvContents"}}
 	behs, gen, err := GenerateBehaviours(sim, seed)
 	if err != nil {
 		return fail(2, "INCONCLUSIVE: "+err.Error())
